@@ -307,6 +307,31 @@ CHECKS = {
         design_ref="DESIGN.md 5 C12",
         note=NOTE_COMMON + " Azimuthal membership of individual segments is not modelled (only their union and uniform response).",
     ),
+    "C14": dict(
+        text=("TLC checks PatternModel - FFT order -> fft_crop's mask copy -> optional fftshift, composed per axis - against "
+              "Pattern!AxisMapOK (every member frequency appears at the position of the n2-point pattern showing that frequency, "
+              "or nowhere if cropped away) for every n2 <= n <= 9 (thorough 14) and both layouts, plus the shift algebra "
+              "(ifftshift inverts fftshift for odd and even sizes; fftshift is an involution only for even sizes).  The 180 "
+              "emitted scenarios (grid parities x max_angle full/cutoff/valid/two numbers x parity x layout) run on real waves "
+              "whose members hold all intensity at one frequency, eager and lazy, and block_direct runs on constant patterns "
+              "for radii no pixel lies on (+- margin, both layouts, four grid parities); PatternTrace.tla decides the decoded "
+              "positions, the requested parity, and blocked set = disc of the effective radius in integer arithmetic with all "
+              "other pixels unchanged."),
+        technique="TLA+ index-map model of crop and shift (TLC) + one-hot decoding of real patterns + TLC trace validation",
+        design_ref="DESIGN.md 5 C14",
+        note=NOTE_COMMON + " Positions are converted to frequencies by the numpy.fft.fftshift layout convention, which is part of the trusted base.",
+    ),
+    "C40": dict(
+        text=("Shares Pattern.tla / PatternModel with C14 (frequency shown at each position of shifted and unshifted patterns, shift "
+              "algebra checked by TLC).  For sizes 3..9 per axis (odd/even mixes), both layouts, units 1/A and mrad, eager and lazy, "
+              "patterns holding a single bright pixel at every position of each axis are passed to center_of_mass and the decoded "
+              "result must be Freq(n, a) in integer arithmetic with a zero other component; a random normalised pattern checks the "
+              "weighted mean; integrate_gradient is applied to analytic gradients of single Fourier modes and must reproduce the "
+              "field up to a constant (logged deviation)."),
+        technique="TLA+ frequency-layout model (TLC) + single-bright-pixel decoding of the real center_of_mass + TLC trace validation",
+        design_ref="DESIGN.md 5 C40",
+        note=NOTE_COMMON + " center_of_mass returns the first moment; it is compared with the weighted mean for patterns of unit total intensity only.",
+    ),
 }
 
 NOT_APPLICABLE = {
